@@ -954,16 +954,20 @@ fn compile_adhoc_plutus_witness<const V: usize>(tx: &tir::Tx) -> Vec<PlutusScrip
                 .transpose()
                 .unwrap_or(None)
         })
-        .map(PlutusScript::<V>)
         .collect();
 
-    out
+    // the witness set is a set: a script written in two directives is carried once
+    without_duplicates(out)
+        .into_iter()
+        .map(PlutusScript::<V>)
+        .collect()
 }
 
 pub type NativeWitness = KeepRaw<'static, primitives::NativeScript>;
 
 fn compile_adhoc_native_witness(tx: &tir::Tx) -> Result<Vec<NativeWitness>, Error> {
-    tx.adhoc
+    let scripts: Vec<_> = tx
+        .adhoc
         .iter()
         .filter(|x| x.name.as_str() == "native_witness")
         .filter_map(|adhoc| {
@@ -974,6 +978,11 @@ fn compile_adhoc_native_witness(tx: &tir::Tx) -> Result<Vec<NativeWitness>, Erro
                 .transpose()
                 .unwrap_or(None)
         })
+        .collect();
+
+    // the witness set is a set: a script written in two directives is carried once
+    without_duplicates(scripts)
+        .into_iter()
         .map(|script_bytes| {
             pallas::codec::minicbor::decode::<primitives::NativeScript>(&script_bytes)
                 .map(KeepRaw::from)
